@@ -244,6 +244,64 @@ def w_options(item, seed=0):
     return t
 
 
+def w_spellings(item, seed=0):
+    """Legal alternative spellings / dtypes / memory layouts of the same request must give the canonical answer
+    (every member below is accepted by the unchanged tree): the estimator is a function of the VALUES it is given."""
+    import torch
+
+    from quantem.core.utils import imaging_utils as U
+
+    shape, which, s, up = tuple(item[0]), item[1], tuple(item[2]), item[3]
+    t = Tally()
+    im = make_image(shape, which, seed)
+    ref = fshift(im, s)
+    ii = np.round((im - im.min()) * 40)  # integer-valued copy for the integer dtypes
+    ri = np.roll(ii, (int(s[0]), int(s[1])), (0, 1))
+    big_r, big_i = np.zeros((2 * shape[0], 2 * shape[1])), np.zeros((2 * shape[0], 2 * shape[1]))
+    big_r[::2, ::2], big_i[::2, ::2] = ref, im
+    ro_r, ro_i = ref.copy(), im.copy()
+    ro_r.flags.writeable = ro_i.flags.writeable = False
+    npf = U.cross_correlation_shift
+    tf = U.cross_correlation_shift_torch
+    variants = {
+        "numpy float32": lambda: npf(ref.astype(np.float32), im.astype(np.float32), upsample_factor=up),
+        "numpy int16": lambda: npf(ri.astype(np.int16), ii.astype(np.int16), upsample_factor=up),
+        "numpy uint8": lambda: npf(ri.astype(np.uint8), ii.astype(np.uint8), upsample_factor=up),
+        "numpy int64": lambda: npf(ri.astype(np.int64), ii.astype(np.int64), upsample_factor=up),
+        "numpy Fortran order": lambda: npf(np.asfortranarray(ref), np.asfortranarray(im), upsample_factor=up),
+        "numpy strided view": lambda: npf(big_r[::2, ::2], big_i[::2, ::2], upsample_factor=up),
+        "numpy transposed views": lambda: npf(np.ascontiguousarray(ref.T).T, np.ascontiguousarray(im.T).T, upsample_factor=up),
+        "numpy read-only": lambda: npf(ro_r, ro_i, upsample_factor=up, return_shifted_image=True)[0],
+        "numpy nested lists": lambda: npf(ref.tolist(), im.tolist(), upsample_factor=up),
+        "numpy upsample_factor=np.int64": lambda: npf(ref, im, upsample_factor=np.int64(up)),
+        "numpy upsample_factor=float": lambda: npf(ref, im, upsample_factor=float(up)),
+        "numpy positional args": lambda: npf(ref, im, up),
+        "numpy max_shift=np.float32": lambda: npf(ref, im, upsample_factor=up, max_shift=np.float32(abs(s[0]) + abs(s[1]) + 3)),
+        "numpy max_shift=int": lambda: npf(ref, im, upsample_factor=up, max_shift=int(abs(s[0]) + abs(s[1]) + 3)),
+        "numpy fft_input complex64": lambda: npf(np.fft.fft2(ref).astype(np.complex64), np.fft.fft2(im).astype(np.complex64), upsample_factor=up, fft_input=True),
+        "torch float32": lambda: tf(torch.tensor(ref, dtype=torch.float32), torch.tensor(im, dtype=torch.float32), upsample_factor=up),
+        "torch int64": lambda: tf(torch.tensor(ri.astype(np.int64)), torch.tensor(ii.astype(np.int64)), upsample_factor=up),
+        "torch non-contiguous": lambda: tf(torch.tensor(big_r)[::2, ::2], torch.tensor(big_i)[::2, ::2], upsample_factor=up),
+        "torch transposed": lambda: tf(torch.tensor(np.ascontiguousarray(ref.T)).t(), torch.tensor(np.ascontiguousarray(im.T)).t(), upsample_factor=up),
+        "torch requires_grad": lambda: tf(torch.tensor(ref, requires_grad=True), torch.tensor(im), upsample_factor=up).detach(),
+        "torch upsample_factor=np.int64": lambda: tf(torch.tensor(ref), torch.tensor(im), upsample_factor=np.int64(up)),
+        "torch positional args": lambda: tf(torch.tensor(ref), torch.tensor(im), up),
+    }
+    for name, fn in variants.items():
+        case = {"part": "spelling", "shape": list(shape), "image": which, "shift": list(s), "upsample": up, "variant": name}
+        t.case(key=case, nontrivial=True)
+        try:
+            out = fn()
+            est = np.asarray(out.detach().cpu().numpy() if hasattr(out, "detach") else out, dtype=float)
+        except Exception as ex:
+            t.fail({"relation": "legal_spelling_accepted", "variant": name}, case, f"{name}: raised {type(ex).__name__}: {str(ex)[:150]} (the unchanged tree accepts this spelling)")
+            continue
+        e = float(np.max(np.abs(wrapdiff(est, s, shape)))) if est.shape == (2,) else np.inf
+        if not np.all(np.isfinite(est)) or e > 2e-4:  # integer shifts: float32 paths reach 3e-6
+            t.fail({"relation": "legal_spelling_gives_canonical_result", "variant": name.split()[0] + ":" + " ".join(name.split()[1:])}, case, f"{name}: shape={shape} applied integer shift {list(s)} upsample={up}: returned {est.tolist()} (error {e:.4g} px)")
+    return t
+
+
 REUSE_CASES = [("0", (0, 0)), ("0", (3, -5)), ("blob", (-2, 1)), ("1", (1, 4)), ("0", (0, 2))]
 
 
@@ -321,6 +379,8 @@ def run(ctx):
     opt_items = list(itertools.product([(8, 11), (9, 9)] if q else shapes, ["0"] if q else ["0", "blob"], [1, 3, 16] if q else FACTORS, [False, True], [False, True], [False, True], ["none", "larger"]))
     opt_items = [o for o in opt_items if o[4] or not o[5]]  # fft_output only matters with return_shifted_image
     ctx.pmap(w_options, opt_items, label="NumPy options", seed=ctx.seed)
+    sp = [((8, 11), "0", (2, -3), 4), ((9, 9), "blob", (-1, 4), 3)] if q else [(sh, w, sft, u) for sh in [(8, 11), (9, 9), (8, 8)] for w in ("0", "blob") for sft in ((2, -3), (0, 0), (-1, 4)) for u in (1, 3, 8)]
+    ctx.pmap(w_spellings, sp, chunk=1, label="alternative spellings / dtypes / layouts", seed=ctx.seed)
     reuse = list(itertools.product(impls, [(8, 11)] if q else [(8, 11), (9, 9)], [1, 4] if q else [1, 3, 8], range(len(REUSE_CASES))))
     ctx.coverage["bounds"]["buffer_reuse"] = {"cases": [[w, list(sh)] for w, sh in REUSE_CASES], "depth": 2 if q else 3}
     ctx.pmap(w_buffer_reuse, reuse, chunk=1, label="reused buffers (call histories)", seed=ctx.seed, depth=2 if q else 3)
@@ -330,6 +390,13 @@ def run(ctx):
 
 def replay(ctx, case):
     t = Tally()
+    if case.get("part") == "spelling":
+        r = w_spellings((case["shape"], case["image"], case["shift"], case["upsample"]), seed=ctx.seed)
+        for f in r.fails:
+            if f["case"]["variant"] == case["variant"]:
+                print("  ", f["msg"])
+                ctx.fail(f["cls"], f["case"], f["msg"])
+        return
     if case.get("part") == "buffer_reuse":
         idx = [[i for i, (w, sh) in enumerate(REUSE_CASES) if w == c[0] and list(sh) == list(c[1])][0] for c in case["history"]]
         r = w_buffer_reuse((case["impl"], case["shape"], case["upsample"], idx[0]), seed=ctx.seed, depth=len(idx))
